@@ -212,7 +212,7 @@ NEUTRAL = [
     ('C20', 'schedule-equivalent-last-day', 'bacpypes/local/schedule.py',
      "        # last day of the month\n        last_day = calendar.monthrange(year + 1900, month)[1]\n        if day != last_day:", "        # last day of the month\n        last_day = max(calendar.monthcalendar(year + 1900, month)[-1])\n        if day != last_day:"),
     ('C13', 'bbmd-age-loop-forward-copy', 'bacpypes/bvllservice.py',
-     "        for i in range(len(self.bbmdFDT)-1, -1, -1):\n            fdte = self.bbmdFDT[i]\n            fdte.fdRemain -= 1\n\n            # delete it if it expired\n            if fdte.fdRemain <= 0:\n                if _debug: BIPBBMD._debug(\"    - foreign device expired: %r\", fdte)\n                del self.bbmdFDT[i]",
+     "        for i in range(len(self.bbmdFDT)-1, -1, -1):\n            fdte = self.bbmdFDT[i]\n            fdte.fdRemain -= 1\n\n            # delete it if it expired\n            if fdte.fdRemain <= 0:\n                if _debug: BIPBBMD._debug(\"foreign device expired: %r\", fdte.fdAddress)\n                del self.bbmdFDT[i]",
      "        for fdte in list(self.bbmdFDT):\n            fdte.fdRemain -= 1\n\n            # delete it if it expired\n            if fdte.fdRemain <= 0:\n                self.bbmdFDT.remove(fdte)"),
     ('C15', 'readproperty-reorder-lookups', 'bacpypes/service/object.py',
      "            # get the datatype\n            datatype = obj.get_datatype(apdu.propertyIdentifier)\n            if _debug: ReadWritePropertyServices._debug(\"    - datatype: %r\", datatype)\n\n            # get the value\n            value = obj.ReadProperty(apdu.propertyIdentifier, apdu.propertyArrayIndex)",
